@@ -41,8 +41,11 @@ NAT, BOOL, UNIT, LAYOUT, DETAILS, CHUNK, ORD, BUMP = "nat", "bool", "unit", "lay
 RAWVEC, RERR, STRATEGY, FALLIB = "rawvec", "rerr", "strategy", "fallibility"
 CHUNKLIST, CELLPREV = "chunklist", "cellprev"
 ELEM, SLOT, VECSELF, GUARD = "elem", "slot", "vecself", "guard"
-VECK = ("vec", "drain", "intoiter")
-ITERK = ("drain", "intoiter")     # kinds whose threaded state is the vector model: `Vec` methods, and methods of its iterator structs
+VECK = ("vec", "drain", "intoiter", "dfilter")
+ITERK = ("drain", "intoiter", "dfilter")
+KEEPK = ("dfilter",)    # `&mut self` methods whose receiver fields must survive a panic (the caller's unwinding reads them): the
+                        # function returns `Except Unit value × fields`, `.error ()` = it unwound
+CB1, DFSTRUCT, BACKSHIFT = "cb1", "dfstruct", "backshiftguard"     # kinds whose threaded state is the vector model: `Vec` methods, and methods of its iterator structs
 BD, DRAIN, ITER2 = "bound", "drainstruct", "sliceiter"
 SLICE, CB2 = "slice", "cb2"   # a sub-slice of the vector's buffer (first slot, length); a two-argument predicate (call log as data)
 EXTW = "extendwith"      # `impl ExtendWith<T>`: the one implementor, `ExtendElement(value)`, is the value it clones
@@ -81,6 +84,8 @@ def lean_ty(t):
     if t == EXTW: return "V.Elem"
     if t == SLICE: return "(Nat × Nat)"
     if t == CB2: return "(Nat → V.Elem → V.Elem → Option Bool)"
+    if t == CB1: return "(Nat → V.Elem → Option Bool)"
+    if t == DFSTRUCT: return "V.DF"
     if t == BD: return "V.Bd"
     if t == DRAIN: return "V.Drain"
     if t == ITER2: return "(Nat × Nat)"
@@ -100,6 +105,7 @@ def rust_ty(text):
     if t == "[T]": return SLICE
     if t in ("Drain<T>", "Drain<'a,'bump,T>"): return DRAIN
     if t == "IntoIter<'bump,T>": return ("tuple", [SLOT, SLOT])
+    if t == "DrainFilter<'a,'bump,T,F>": return DFSTRUCT
     if t in ("slice::Iter<'a,T>", "slice::Iter<T>"): return ITER2
     if t in ("()", ""): return UNIT
     if t == "Layout": return LAYOUT
@@ -140,6 +146,8 @@ class Fn:
         # a value of the element type returned by this function goes to the caller of the crate (event `moveOut`); internal
         # helpers (an iterator's `next` called by its own destructor) do not emit it
         self.moves_out = True
+        # `self.<prefix>.field` is the receiver's own field (a guard struct that only wraps `&mut` the iterator)
+        self.self_prefix = None
 
     def param_ty(self, name, text):
         return self.ptypes[name] if name in self.ptypes else rust_ty(text)
@@ -236,6 +244,16 @@ FUNCS += [
        self_fields=DRAIN_FIELDS),
     Fn("drop", "drain", "st", file=VEC_RS, group="VecDrain", anchor="Drop for Drain<'a, 'bump, T>", lean="drain_drop", self_fields=DRAIN_FIELDS),
 ]
+DF_FIELDS = [("idx", "usize"), ("del", "usize"), ("old_len", "usize"), ("pred__calls", ("ty", NAT)), ("panic_flag", "bool")]
+FUNCS += [
+    Fn("drain_filter", "vec", "st", file=VEC_RS, group="VecFilter", anchor=VEC_IMPL, lean="vec_drain_filter", ptypes={"filter": CB1}),
+    Fn("next", "dfilter", "st", file=VEC_RS, group="VecFilter", anchor="Iterator for DrainFilter", lean="df_next", self_fields=DF_FIELDS),
+    Fn("drop", "dfilter", "st", file=VEC_RS, group="VecFilter", anchor="Drop for BackshiftOnDrop", lean="df_backshift_drop", self_fields=DF_FIELDS),
+    Fn("drop", "dfilter", "st", file=VEC_RS, group="VecFilter", anchor="Drop for DrainFilter", lean="df_drop", self_fields=DF_FIELDS),
+    Fn("retain", "vec", "st", file=VEC_RS, group="VecFilter", anchor=VEC_IMPL, lean="vec_retain", ptypes={"f": CB1}),
+]
+FUNCS[-3].self_prefix = "drain"
+FUNCS[-4].moves_out = False
 II_FIELDS = [("ptr", ("ty", SLOT)), ("end", ("ty", SLOT))]
 FUNCS += [
     Fn("into_iter", "vec", "st", file=VEC_RS, group="VecIntoIter", anchor="IntoIterator for Vec<'bump, T>", lean="vec_into_iter"),
@@ -248,6 +266,7 @@ for _f in FUNCS:
     if _f.lean in ("drain_next", "drain_next_back", "intoiter_next", "intoiter_next_back"):
         _f.moves_out = False
 FN = {f.name: f for f in FUNCS}
+FN_LEAN = {f.lean: f for f in FUNCS}
 # names that exist on several receivers: the table is per receiver kind
 FN_BY_KIND = {}
 for f in FUNCS:
@@ -347,7 +366,9 @@ class Tr:
             self.sv, self.sty, self.bindS, self.pureS = "s", "RsM.VW", "RsM.bindW", "RsM.pureW"
         else:
             self.sv, self.sty, self.bindS, self.pureS = "s", "St", "bindO", "pureO"
-        if fn.kind in ("rawvec",) + VECK:
+        if fn.kind == "dfilter":
+            self.lead, self.lead_names = ["(c : V.Cfg)", "(pred : Nat → V.Elem → Option Bool)"], ["c", "pred"]
+        elif fn.kind in ("rawvec",) + VECK:
             self.lead, self.lead_names = ["(c : V.Cfg)"], ["c"]
         elif fn.kind in ("bump", "chunk", "assocst", "iter"):
             self.lead, self.lead_names = ["(E M : Nat)"], ["E", "M"]
@@ -360,6 +381,8 @@ class Tr:
     def ret_lean_ty(self):
         t = self.ret
         inner = lean_ty(t[1]) if isinstance(t, tuple) and t[0] == "res" else lean_ty(t)
+        if self.fn.kind in KEEPK:
+            inner = f"(Except Unit {inner})"
         if self.fn.self_fields and not self.ret_override:
             inner = "(" + " × ".join([inner] + [lean_ty(ftype(ft)) for _, ft in self.fn.self_fields]) + ")"
         return f"{self.sty} × Outcome {inner}" if self.st else f"Outcome {inner}"
@@ -369,6 +392,13 @@ class Tr:
 
     def bad(self, why):
         return self.wrap(f'Outcome.bad "{self.fn.name}: {why}"')
+
+    def keep_fields(self, env):
+        """in methods whose receiver fields are reported on every exit, a join point receives the current fields (a branch may
+        have changed them through a call rather than an assignment)"""
+        if self.fn.kind not in KEEPK:
+            return []
+        return ["self." + f for f, _ in self.fn.self_fields if ("self." + f) in env.d]
 
     def recv_is_vec(self, recv, env):
         """is this receiver expression the vector itself (`self` in a `Vec` method, `self.vec.as_mut()` or a local bound to
@@ -387,13 +417,21 @@ class Tr:
             return None
         t = self.sv
         for ln in reversed(env.owned):     # newest first
-            if isinstance(ln, tuple):      # a `SetLenOnDrop` guard: its destructor stores the length it carries
+            if isinstance(ln, tuple) and ln[0] == "guardfn":      # a guard whose destructor is a translated function
+                finals = [env.d["self." + f][0] for f, _ in self.fn.self_fields]
+                t = f"(RsM.stateOf (Gen.Fn.df_backshift_drop c pred {' '.join(finals)} {t}))"
+            elif isinstance(ln, tuple):      # a `SetLenOnDrop` guard: its destructor stores the length it carries
                 t = f"(RsM.store_len {env.d[ln[1]][0]} {t})"
             else:
                 t = f"(RsM.drop_elem c {ln} {t})"
         return t
 
     def panic(self, env=None):
+        if self.fn.kind in KEEPK:
+            if env is None:
+                raise Untranslatable("a panic whose frame is not known")
+            finals = [env.d["self." + f][0] for f, _ in self.fn.self_fields]
+            return f"({self.cleanup(env) or self.sv}, Outcome.ok (Except.error (), {', '.join(finals)}))"
         cl = self.cleanup(env)
         if cl is not None:
             return f"({cl}, Outcome.panic)"
@@ -415,7 +453,7 @@ class Tr:
         val = term
         if self.fn.self_fields and not self.in_closure:
             finals = [env.d["self." + f][0] for f, _ in self.fn.self_fields]
-            val = f"({term}, {', '.join(finals)})"
+            val = f"({'Except.ok ' + paren(term) if self.fn.kind in KEEPK else term}, {', '.join(finals)})"
         if self.fn.kind in VECK and self.fn.moves_out and ty == ELEM:
             return f"(RsM.moved {term} {self.sv}, Outcome.ok {val})"
         if self.fn.kind in VECK and self.fn.moves_out and ty == opt(ELEM):
@@ -461,6 +499,11 @@ class Tr:
         """call = lean application without the state argument; result bound to a fresh name.
         footers=False: a primitive that changes no footer field (global allocator call, memory copy)"""
         env2, v = env.bind("r", ty)
+        if self.fn.kind in KEEPK and callee_mode == "st" and not nopanic:
+            self.bump_version()
+            handler = self.panic(env)
+            body = k(v, ty, env2)
+            return f"(RsM.bindK ({call} {self.sv}) (fun {self.sv} => {handler}) fun {self.sv} {v} =>\n{body})"
         cl = None if nopanic or callee_mode != "st" else self.cleanup(env)
         if cl is not None:
             self.bump_version()
@@ -643,7 +686,9 @@ class Tr:
             if ty == VECSELF and f == "len": return f"{self.sv}.1.len", NAT
             if ty == VECSELF and f == "buf": return f"{self.sv}.1", RAWVEC
             if ty == "selfstruct" and ("self." + f) in env.d: return env.d["self." + f]
-            if ty == "selfstruct" and f == "vec" and self.fn.kind == "drain": return "self", VECSELF
+            if ty == "selfstruct" and f == "vec" and self.fn.kind in ("drain", "dfilter"): return "self", VECSELF
+            if ty == "selfstruct" and self.fn.self_prefix and f == self.fn.self_prefix: return "self", "selfstruct"
+            if ty == BACKSHIFT and f == "drain": return "self", "selfstruct"
             if ty == "selfstruct" and f == "phantom": return "()", UNIT
             if isinstance(ty, tuple) and ty[0] == "tuple" and f in ("0", "1"):
                 return f"{paren(t)}.{int(f) + 1}", ty[1][int(f)]
@@ -787,6 +832,17 @@ class Tr:
                     d[f] = p[0]
                 if set(d) != {"new_size_without_footer", "size", "align"}: return None
                 return f"(Details.mk {d['new_size_without_footer']} {d['align']} {d['size']})", DETAILS
+            if segs[-1] == "BackshiftOnDrop" and len(fs) == 1 and fs[0] == ("drain", ("path", ["self"])) and self.fn.kind == "dfilter":
+                return "()", BACKSHIFT
+            if segs[-1] == "DrainFilter":
+                d = {}
+                for f, fe in fs:
+                    p = self.pure(fe, env)
+                    if p is None: return None
+                    d[f] = p
+                if set(d) != {"vec", "idx", "del", "old_len", "pred", "panic_flag"} or d["vec"][1] != VECSELF or d["pred"][1] != CB1:
+                    return None
+                return f"(V.DF.mk {d['idx'][0]} {d['del'][0]} {d['old_len'][0]} 0 {d['panic_flag'][0]})", DFSTRUCT
             if segs[-1] == "IntoIter":
                 d = {}
                 for f, fe in fs:
@@ -910,7 +966,7 @@ class Tr:
         if kind == "for":
             return self.FOR(e, env, k)
         if kind == "while":
-            return self.WHILE(e, env, k)
+            return self.WHILE_K(e, env, k) if self.fn.kind in KEEPK else self.WHILE(e, env, k)
         if kind == "try":
             def kt(t, ty, env_):
                 if isinstance(ty, tuple) and ty[0] == "res2":
@@ -991,6 +1047,14 @@ class Tr:
                     raise Untranslatable(f"field .{e[2]} of {ty}")
                 return k(pp[0], pp[1], env_)
             return self.E(e[1], env, K(kf))
+        if kind == "index" and self.fn.kind in VECK and self.pure(e[1], env) is not None and self.pure(e[1], env)[1] == SLICE:
+            base = self.pure(e[1], env)[0]
+
+            def kis(t, ty, env_):
+                if ty != NAT:
+                    raise Untranslatable(f"index of type {ty}")
+                return self.check(f"decide ({t} < {paren(base)}.2)", "index", k(f"({paren(base)}.1 + {t})", SLOT, env_), asserting=True, env=env_)
+            return self.E(e[2], env, K(kis))
         if kind == "index" and self.recv_is_vec(e[1], env):
             # `self[i]` / `&mut self[i]`: the slice bounds check, then a pointer to slot i
             def kix(t, ty, env_):
@@ -1032,7 +1096,7 @@ class Tr:
     def IF(self, e, env, k):
         _, c, then, els = e
         mutated = sorted(assigned(then) | (assigned(els) if els else set()))
-        mutated = [m for m in mutated if m in env.d]
+        mutated = [m for m in mutated if m in env.d] + self.keep_fields(env)
 
         def kc(tc, tyc, env_):
             nfall = int(falls(then)) + (int(falls(els)) if els is not None else 1)
@@ -1054,7 +1118,7 @@ class Tr:
     def IFLET(self, e, env, k):
         _, pat, scrut, then, els = e
         mutated = sorted(assigned(then) | (assigned(els) if els else set()))
-        mutated = [m for m in mutated if m in env.d]
+        mutated = [m for m in mutated if m in env.d] + self.keep_fields(env)
 
         def ks(ts, tys, env_):
             nfall = int(falls(then)) + (int(falls(els)) if els is not None else 1)
@@ -1074,7 +1138,7 @@ class Tr:
         mutated = set()
         for _, _, body in arms:
             mutated |= assigned(body)
-        mutated = [m for m in sorted(mutated) if m in env.d]
+        mutated = [m for m in sorted(mutated) if m in env.d] + self.keep_fields(env)
 
         def ks(ts, tys, env_):
             nfall = sum(int(falls(b)) for _, _, b in arms)
@@ -1142,6 +1206,25 @@ class Tr:
 
     def CALL(self, e, env, k):
         f, args = e[1], e[2]
+        fe = f[1] if f[0] == "paren" else f
+        if fe[0] == "field" and len(args) == 1:
+            pf = self.pure(fe, env)
+            if pf is not None and pf[1] == CB1:
+                key = "self." + fe[2] + "__calls"
+
+                def kcb1(pa, env_):
+                    if pa[0][1] != SLOT:
+                        raise Untranslatable("closure argument")
+                    cnt = env_.d[key][0]
+                    e2, ea = env_.bind("a", ELEM)
+                    e2, cnt2 = e2.bind(key, NAT)
+                    e3, r = e2.bind("r", BOOL)
+                    self.bump_version()
+                    # the call is counted before its answer is known: a panicking call has been made
+                    return (f"(match RsM.read {paren(pa[0][0])} {self.sv} with\n| none => {self.bad('read of an uninitialised slot')}\n"
+                            f"| some {ea} =>\nlet {cnt2} := {cnt} + 1;\n(match {pf[0]} {cnt} {ea} with\n| none => {self.panic(e2)}\n"
+                            f"| some {r} =>\n{k(r, BOOL, e3)}))")
+                return self.args(args, env, kcb1)
         if f[0] != "path":
             raise Untranslatable("call of a non-path")
         segs = f[1]
@@ -1198,6 +1281,8 @@ class Tr:
                         f"| some {ln} =>\n{inner})")
             if self.fn.kind in VECK and segs[-2:] == ["ptr", "copy"] and len(pa) == 3 and pa[0][1] == SLOT and pa[1][1] == SLOT:
                 return self.bind_call(f"RsM.copy c {sp(pa)}", "st", k, env_, UNIT, nopanic=True)
+            if self.fn.kind in VECK and segs[-2:] == ["ptr", "copy_nonoverlapping"] and len(pa) == 3 and pa[0][1] == SLOT and pa[1][1] == SLOT:
+                return self.bind_call(f"RsM.copy_nonoverlapping c {sp(pa)}", "st", k, env_, UNIT, nopanic=True)
             if self.fn.kind in VECK and segs[-2:] == ["ptr", "drop_in_place"] and len(pa) == 1 and pa[0][1] == SLOT:
                 return self.bind_call(f'RsM.drop_in_place c "{self.fn.name}: drop of an uninitialised slot" {sp(pa)}', "st", k, env_, UNIT)
             if segs[-2:] == ["ptr", "copy_nonoverlapping"] and len(pa) == 3:
@@ -1224,7 +1309,9 @@ class Tr:
             raise Untranslatable(f"{g.name} is called but could not be translated itself")
         rty = rust_ty(g.sig["ret"])
         lead = []
-        if g.kind in ("rawvec",) + VECK:
+        if g.kind == "dfilter":
+            lead = ["c", "pred"]
+        elif g.kind in ("rawvec",) + VECK:
             lead = ["c"]
         elif g.kind in ("bump", "chunk", "assocst", "iter"):
             lead = ["E", "M"]
@@ -1427,6 +1514,86 @@ class Tr:
             return "\n".join(lines) + "\n" + k("()", UNIT, e3)
         return self.bind_call(call, "st", K(kafter), env, ("tuple", tys), nopanic=True)
 
+    def WHILE_K(self, e, env, k):
+        """`while cond { body }` in continuation style: the lifted loop function has the enclosing function's own result type
+        and what follows the loop is translated inside its exit branch, so the body may `return` and a panic inside it reports
+        the receiver fields current at that point."""
+        _, cond, body = e
+        muts = sorted((assigned(body) | assigned_self(body) | ({"self.pred__calls"} if "self.pred__calls" in env.d else set())) & set(env.d))
+        self.nj += 1
+        name = f"{self.fn.lean}.loop_{self.nj}"
+        old_mut_names = [env.d[m][0] for m in muts]
+        captured = [(ln, t) for ln, t in env.scope if lean_ty_ok(t)]
+        envl = env.copy()
+        envl, fuel = envl.bind("fuel", NAT)
+        envl, fuel1 = envl.bind("fuel", NAT)
+        mut_params = []
+        for m in muts:
+            envl, ln = envl.bind(m, env.d[m][1])
+            mut_params.append(f"({ln} : {lean_ty(env.d[m][1])})")
+        lead_args = " ".join(self.lead_names)
+        cap_args = " ".join(ln for ln, _ in captured)
+        saved_version = self.version
+        self.no_join += 1
+        self.bump_version()
+
+        def kc(tc, tyc, ec):
+            if tyc != BOOL:
+                raise Untranslatable("loop condition")
+            again = K(lambda t, ty, e_: f"(Gen.Fn.{name} {lead_args} {cap_args} {fuel1} {' '.join(e_.d[m][0] for m in muts)} {self.sv})")
+            return f"(if {tc} then\n{self.E(body, ec, again)}\nelse\n{k('()', UNIT, ec)})"
+        inner = self.E(cond, envl, K(kc))
+        self.no_join -= 1
+        self.version = saved_version
+        params = [f"({ln} : {lean_ty(t)})" for ln, t in captured]
+        self.lifted.append(
+            f"def {name} {' '.join(self.lead)} {' '.join(params)} ({fuel} : Nat) {' '.join(mut_params)} ({self.sv} : {self.sty}) : {self.ret_lean_ty()} :=\n"
+            + indent(f"(match {fuel} with\n| 0 => {self.bad('loop fuel exhausted')}\n| {fuel1} + 1 =>\n{inner})") + "\n")
+        return f"(Gen.Fn.{name} {lead_args} {cap_args} USIZE {' '.join(env.d[m][0] for m in muts)} {self.sv})"
+
+    def FOR_EACH_DROP_K(self, env, k):
+        """`for_each(drop)` where `next` reports unwinding as a value: `.error ()` from it (the predicate panicked) unwinds through
+        this frame; what follows the loop is translated inside its exit branch."""
+        g = FN_BY_KIND.get((self.fn.kind, "next"))
+        if g is None or g.sig is None:
+            raise Untranslatable("for_each(drop): the struct's `next` is not translated")
+        fields = [f for f, _ in self.fn.self_fields]
+        tys = [ftype(ft) for _, ft in self.fn.self_fields]
+        self.nj += 1
+        name = f"{self.fn.lean}.loop_{self.nj}"
+        old_names = [env.d["self." + f][0] for f in fields]
+        captured = [(ln, t) for ln, t in env.scope if lean_ty_ok(t)]
+        envl = env.copy()
+        envl, fuel = envl.bind("fuel", NAT)
+        envl, fuel1 = envl.bind("fuel", NAT)
+        params, cur = [], []
+        for f, t in zip(fields, tys):
+            envl, ln = envl.bind("self." + f, t)
+            params.append(f"({ln} : {lean_ty(t)})")
+            cur.append(ln)
+        envl, r = envl.bind("r", NAT)
+        lets, env2 = [], envl
+        for j, (f, t) in enumerate(zip(fields, tys)):
+            env2, ln = env2.bind("self." + f, t)
+            lets.append(f"let {ln} := {r}" + "".join(".2" for _ in range(j + 1)) + (".1" if j < len(fields) - 1 else "") + ";")
+        env3, x = env2.bind("x", ELEM)
+        lead_args = " ".join(self.lead_names)
+        cap_args = " ".join(ln for ln, _ in captured)
+        self.no_join += 1
+        saved_version = self.version
+        self.bump_version()
+        again = f"(Gen.Fn.{name} {lead_args} {cap_args} {fuel1} {' '.join(env2.d['self.' + f][0] for f in fields)} {self.sv})"
+        dropx = self.bind_call(f"RsM.drop_local c {x}", "st", K(lambda t_, ty_, e_: again), env3, UNIT)
+        body = (f"(RsM.bindW (Gen.Fn.{g.lean} {lead_args} {' '.join(cur)} {self.sv}) fun {self.sv} {r} =>\n" + "\n".join(lets) + "\n"
+                f"(match {r}.1 with\n| .error _ => {self.panic(env2)}\n| .ok none =>\n{k('()', UNIT, env2)}\n| .ok (some {x}) =>\n{dropx}))")
+        self.no_join -= 1
+        self.version = saved_version
+        cparams = [f"({ln} : {lean_ty(t)})" for ln, t in captured]
+        self.lifted.append(
+            f"def {name} {' '.join(self.lead)} {' '.join(cparams)} ({fuel} : Nat) {' '.join(params)} ({self.sv} : {self.sty}) : {self.ret_lean_ty()} :=\n"
+            + indent(f"(match {fuel} with\n| 0 => {self.bad('loop fuel exhausted')}\n| {fuel1} + 1 =>\n{body})") + "\n")
+        return f"(Gen.Fn.{name} {lead_args} {cap_args} USIZE {' '.join(env.d['self.' + f][0] for f in fields)} {self.sv})"
+
     def WHILE(self, e, env, k):
         """`while cond { body }`: a lambda-lifted function recursive on a fuel argument (started at `2^64`: every loop of the
         translated subset advances an index below `usize::MAX`; running out of fuel is `bad`).  Like `FOR`, it returns the final
@@ -1532,7 +1699,9 @@ class Tr:
             e2, r = env.bind("r", ("tuple", [opt(SLOT), ITER2]))
             e3, it2 = e2.bind("self.iter", ITER2)
             return f"let {r} := RsM.slice_iter_{name} {it};\nlet {it2} := {r}.2;\n{k(r + '.1', opt(SLOT), e3)}"
-        if recv == ("path", ["self"]) and self.fn.kind in ITERK and name == "for_each" and args == [("path", ["drop"])]:
+        if self.fn.kind in ITERK and name == "for_each" and args == [("path", ["drop"])] and self.pure(recv, env) == ("self", "selfstruct"):
+            if self.fn.kind in KEEPK:
+                return self.FOR_EACH_DROP_K(env, k)
             return self.FOR_EACH_DROP(env, k)
         if self.recv_is_vec(recv, env) and ("vec", name) in FN_BY_KIND:
             return self.args(args, env, lambda pa, env_: self.call_fn(FN_BY_KIND[("vec", name)], None, pa, env_, k))
@@ -1618,6 +1787,9 @@ class Tr:
                 if ty == NAT and name == "offset_from" and len(pa) == 1 and pa[0][1] == NAT:
                     a = pa[0][0]
                     return self.check(f"{a} ≤ {t}", "offset_from of a lower pointer (the result is cast to usize)", k(f"({t} - {a})", NAT, env2))
+                if ty == SLOT and name == "sub" and len(pa) == 1 and pa[0][1] == NAT:
+                    a = pa[0][0]
+                    return self.check(f"{a} ≤ {t}", "pointer sub leaves the buffer", k(f"({t} - {a})", SLOT, env2))
                 if ty == NAT and name == "sub" and len(pa) == 1:
                     a = pa[0][0]
                     return self.check(f"{a} ≤ {t}", "pointer sub wraps", k(f"({t} - {a})", NAT, env2))
@@ -1659,6 +1831,20 @@ class Tr:
                             e4 = e3.copy()
                             e4.owned = [x for x in e4.owned if not (isinstance(x, tuple) and x[1] in gs)]
                             return k(t, ty, e4.restrict_to(outer))
+                        if ("guardfn", gs[j]) in e3.owned:
+                            finals = [e3.d["self." + f][0] for f, _ in self.fn.self_fields]
+                            tys_ = [ftype(ft) for _, ft in self.fn.self_fields]
+
+                            def kg(r, ty_, e5):
+                                lines, e6 = [], e5
+                                for jj, ((f, _), t_) in enumerate(zip(self.fn.self_fields, tys_)):
+                                    e6, ln = e6.bind("self." + f, t_)
+                                    lines.append(f"let {ln} := {r}" + "".join(".2" for _ in range(jj + 1)) + (".1" if jj < len(tys_) - 1 else "") + ";")
+                                return "\n".join(lines) + "\n" + drop(j + 1, e6)
+                            e3b = e3.copy()
+                            e3b.owned = [x for x in e3b.owned if x != ("guardfn", gs[j])]
+                            return self.bind_call(f"Gen.Fn.df_backshift_drop c pred {' '.join(finals)}", "st", K(kg), e3b,
+                                                  ("tuple", [UNIT] + tys_), nopanic=True)
                         return self.bind_call(f"RsM.set_len {e3.d[gs[j]][0]}", "st", K(lambda t_, ty_, e5: drop(j + 1, e5)), e3, UNIT, nopanic=True)
                     return drop(0, e2)
                 if tail is None:
@@ -1682,6 +1868,11 @@ class Tr:
                     return go(i + 1, e3)
 
                 def kl(t, ty, e2):
+                    if pat[0] == "pid" and ty == BACKSHIFT:    # a guard: its destructor runs when the scope ends, also by unwinding
+                        e3 = e2.copy()
+                        e3.d[pat[1]] = ("()", BACKSHIFT)
+                        e3.owned.append(("guardfn", pat[1]))
+                        return go(i + 1, e3)
                     if pat[0] == "pid" and ty == VECSELF:      # another name for the vector: no value to bind
                         e3 = e2.copy()
                         e3.d[pat[1]] = (t, VECSELF)
@@ -1752,6 +1943,27 @@ class Tr:
                         e3 = e3.disown(t).own(ln)
                     return f"let {ln} := {t};\n{go(i + 1, e3)}"
                 return self.E(val, env_, K(ka))
+            if st[0] == "expr" and st[1][0] == "mcall" and st[1][2] == "drain_filter" and self.fn.kind == "vec" \
+                    and self.recv_is_vec(st[1][1], env_) and len(st[1][3]) == 1 and st[1][3][0][0] == "closure":
+                # `self.drain_filter(|x| !f(x));` — the iterator is a temporary: created, then dropped at the end of the statement
+                clo = st[1][3][0]
+                b = clo[2]
+                ok = (len(clo[1]) == 1 and clo[1][0][0] == "pid" and b[0] == "un" and b[1] == "!" and b[2][0] == "call"
+                      and b[2][1][0] == "path" and len(b[2][1][1]) == 1 and b[2][2] == [("path", [clo[1][0][1]])])
+                fn_ = b[2][1][1][0] if ok else None
+                if not ok or fn_ not in env_.d or env_.d[fn_][1] != CB1:
+                    raise Untranslatable("drain_filter with this closure")
+                cbt = f"(fun k_ e_ => ({env_.d[fn_][0]} k_ e_).map (!·))"
+                gdf, gdrop = FN_BY_KIND.get(("vec", "drain_filter")), FN_LEAN.get("df_drop")
+                if gdf is None or gdf.sig is None or gdrop is None or gdrop.sig is None:
+                    raise Untranslatable("drain_filter / DrainFilter::drop are not translated")
+
+                def kd(d, ty_, e2):
+                    def kr(r, ty2, e3):
+                        return f"(match {r}.1 with\n| .ok _ =>\n{go(i + 1, e3)}\n| .error _ => {self.panic(e3)})"
+                    return self.bind_call(f"Gen.Fn.df_drop c {cbt} {d}.idx {d}.del {d}.oldLen {d}.calls {d}.panicFlag", "st", K(kr), e2,
+                                          ("tuple", [UNIT, NAT]), nopanic=True)
+                return self.bind_call(f"Gen.Fn.vec_drain_filter c {cbt}", "st", K(kd), env_, DFSTRUCT, nopanic=True)
             if st[0] == "expr":
                 ex = st[1]
                 if ex[0] == "call" and ex[1][0] == "path" and ex[1][1][-2:] == ["ptr", "write"] and len(ex[2]) == 2 \
@@ -1774,6 +1986,8 @@ class Tr:
         env = Env()
         params = list(self.lead)
         cb_params = []
+        if self.fn.kind == "dfilter":
+            env.d["self.pred"] = ("pred", CB1)
         for f_, ft in self.fn.self_fields:
             ty = ftype(ft)
             env, ln = env.bind("self." + f_, ty)
@@ -1876,6 +2090,20 @@ def cb_keys(e, env):
     elif isinstance(e, list):
         for x in e:
             out |= cb_keys(x, env)
+    return out
+
+
+def assigned_self(e):
+    """receiver fields assigned anywhere inside an AST, as env keys `self.<field>`"""
+    out = set()
+    if isinstance(e, tuple):
+        if e and e[0] == "assign" and e[2][0] == "field" and e[2][1] == ("path", ["self"]):
+            out.add("self." + e[2][2])
+        for x in e:
+            out |= assigned_self(x)
+    elif isinstance(e, list):
+        for x in e:
+            out |= assigned_self(x)
     return out
 
 
@@ -1992,8 +2220,8 @@ def translate_all(repo):
 
 
 GROUP_IMPORTS = {"Arith": [], "Details": ["Arith"], "Bytes": ["Arith"], "Limit": ["Arith", "Bytes"], "Footer": ["Arith"], "Fast": ["Arith", "Footer"],
-                 "Realloc": ["Arith", "Fast", "Footer", "Limit"], "RawVec": [], "Vec": ["RawVec"], "VecDrain": ["RawVec", "Vec"], "VecIntoIter": ["RawVec", "Vec"], "Reset": ["Arith", "Footer"], "Rewind": ["Arith", "Footer", "Limit", "Fast", "Realloc"], "NewChunk": ["Arith"], "Iter": ["Arith", "Footer"], "Ctor": ["Arith", "Details", "NewChunk"], "Slow": ["Arith", "Details", "Bytes", "Limit", "Footer", "Fast", "NewChunk"]}
-GROUP_PRELUDE = {"RawVec": "BumpVerif.Model.RsVec", "Vec": "BumpVerif.Model.RsVecM", "VecDrain": "BumpVerif.Model.RsVecM", "VecIntoIter": "BumpVerif.Model.RsVecM"}
+                 "Realloc": ["Arith", "Fast", "Footer", "Limit"], "RawVec": [], "Vec": ["RawVec"], "VecDrain": ["RawVec", "Vec"], "VecIntoIter": ["RawVec", "Vec"], "VecFilter": ["RawVec", "Vec"], "Reset": ["Arith", "Footer"], "Rewind": ["Arith", "Footer", "Limit", "Fast", "Realloc"], "NewChunk": ["Arith"], "Iter": ["Arith", "Footer"], "Ctor": ["Arith", "Details", "NewChunk"], "Slow": ["Arith", "Details", "Bytes", "Limit", "Footer", "Fast", "NewChunk"]}
+GROUP_PRELUDE = {"RawVec": "BumpVerif.Model.RsVec", "Vec": "BumpVerif.Model.RsVecM", "VecDrain": "BumpVerif.Model.RsVecM", "VecIntoIter": "BumpVerif.Model.RsVecM", "VecFilter": "BumpVerif.Model.RsVecM"}
 
 
 def run(repo, out_dir, write_if_changed):
